@@ -111,6 +111,9 @@ func (e *Engine) feasible(st *State, extra *Term) (res bool) {
 	if slowMs > 0 && len(e.solver.Durs) > 0 {
 		if d := e.solver.Durs[len(e.solver.Durs)-1]; d.Milliseconds() >= int64(slowMs) {
 			fmt.Printf("SLOW %dms res=%v pc=%d at %s\n", d.Milliseconds(), r, len(st.pc), st.stack()[0])
+			if dir := os.Getenv("SYMGO_DUMPSLOW"); dir != "" {
+				dumpQuery(fmt.Sprintf("%s/slow-%d-%dms-%v.smt2", dir, e.stats.feas, d.Milliseconds(), r), append(append([]*Term(nil), st.pc...), extra))
+			}
 		}
 	}
 	return r != Unsat
@@ -1142,4 +1145,21 @@ func (e *Engine) typeAssert(st *State, f *Frame, x *ssa.TypeAssert) {
 		return
 	}
 	f.regs[x] = res
+}
+
+func dumpQuery(path string, conj []*Term) {
+	pr := NewPrinter()
+	var refs []string
+	for _, t := range conj {
+		if !t.IsTrue() {
+			refs = append(refs, pr.Define(t))
+		}
+	}
+	var sb strings.Builder
+	sb.WriteString(pr.Flush())
+	for _, r := range refs {
+		fmt.Fprintf(&sb, "(assert %s)\n", r)
+	}
+	sb.WriteString("(check-sat)\n")
+	os.WriteFile(path, []byte(sb.String()), 0644)
 }
